@@ -278,6 +278,11 @@ def verify_packing(inst: Inst, sels: List[List[int]]) -> bool:
     return True
 
 
+def verify_packing_flat(inst: Inst, flat: List[int]) -> bool:
+    d = inst.d
+    return len(flat) == d * 2 * inst.k and verify_packing(inst, [flat[i:i + d] for i in range(0, len(flat), d)])
+
+
 def find_cert(inst: Inst, budget: int = 0):
     """('packing', flat list of selection masks) | ('exhaustive', None) | None.
     `budget`: largest number of candidates the exhaustive check may enumerate."""
